@@ -12,6 +12,8 @@ import Flax.Proofs.Stable
 import Flax.Proofs.PathSim
 import Flax.Proofs.ShapeSim
 import Flax.Proofs.KeysSim
+import Flax.Proofs.ArgFree
+import Flax.Proofs.CloneCache
 
 namespace Flax.C02
 open Flax.Filter (LFilter inFilter)
@@ -441,9 +443,82 @@ theorem submodule_compositional (cfg : Cfg) (fuel : Nat) (body : SProg) (π' : P
 
 open Flax.PathSim in
 /-- the variables a user extracts for a submodule (`{col: V[col][n₁]…[nₖ]}`) are a re-rooting -/
-theorem restrict_is_reroot (π' : Path) (m : LFilter) (V : Vars) (rngs : List String) :
+theorem restrict_is_reroot (π' : Path) (m : LFilter) (V : Vars) (hV : HeadsIn V) (rngs : List String) :
     Reroot π' (Scope.bind m V rngs) (Scope.bind m (restrict π' V) rngs) :=
-  reroot_bind π' m V rngs
+  reroot_bind π' m V hV rngs
+
+/-! ## clause: bind / unbind of any submodule -/
+
+open Flax.PathSim in
+/-- **`unbind(bind(m, V))` gives back `m` and `V`.**  Binding a module to variables and unbinding it
+returns the same module (same body; unbound; name reset to `None`, which for a top-level module it already
+was) and variables with the same collections that read, at every path, exactly like `V`. -/
+theorem unbind_bind (m : Mod) (V : Vars) (rngs : List String) :
+    ∃ V', (m.bind V rngs).unbind = some ({ body := m.body, name := none, bound := none }, V') ∧
+      V'.cols = V.cols ∧ ∀ c rest, lookupP (c :: rest) V'.vars = lookupP (c :: rest) V.vars := by
+  refine ⟨scopeVariables [] (Scope.bind .ff V rngs), rfl, ?_, ?_⟩
+  · simp [scopeVariables, restrict, Scope.bind, List.map_map, Function.comp_def]
+  · intro c rest
+    have := lookupP_restrict [] c rest V.vars
+    simpa [scopeVariables, restrict, Scope.bind] using this
+
+open Flax.PathSim in
+/-- **A bound submodule's variables are exactly `V↾path`.**  For a module bound at path `π` over store `s`
+and its child `k`: unbinding the child returns the child's body (names reset) and variables that read at
+`col :: rest` what the parent's store reads at `col :: π ++ [k.name] ++ rest`; the collections handed out
+are those in which the child has a variable. -/
+theorem bound_submodule_variables (m : Mod) (π : Path) (s : Store) (hb : m.bound = some (π, s)) (k : Kid) :
+    ∃ Vk, (m.child k).unbind = some ({ body := k.body, name := none, bound := none }, Vk) ∧
+      (∀ c rest, lookupP (c :: rest) Vk.vars = lookupP (c :: ((π ++ [k.name]) ++ rest)) s.vars) ∧
+      (∀ c ∈ Vk.cols, ∃ kv ∈ Vk.vars, kv.1.head? = some c) := by
+  refine ⟨scopeVariables (π ++ [k.name]) s, by simp [Mod.child, Mod.unbind, hb], ?_, ?_⟩
+  · intro c rest
+    exact lookupP_restrict (π ++ [k.name]) c rest s.vars
+  · intro c hc
+    unfold scopeVariables at hc ⊢
+    simp only at hc ⊢
+    have hne : (π ++ [k.name] = []) = False := by simp
+    simp only [hne, if_false, List.mem_filter, List.any_eq_true, decide_eq_true_eq] at hc
+    exact hc.2
+
+open Flax.PathSim in
+/-- **Unbind, then apply = the bound call.**  If the body of a submodule, run at its path `π'` inside
+the parent's store `s` (every leaf of which sits in a collection of `s`), returns locals `l1`, then
+the same body run as a top-level module over the variables `unbind()` hands out for that submodule — bound
+with the same filter and RNG streams — returns the same locals (same output) and ends in the re-rooted
+subtree of the parent's final store. -/
+theorem unbind_then_apply (cfg : Cfg) (fuel : Nat) (body : SProg) (π' : Path) (x : Int) (l l1 : Local)
+    (s s1 : Store) (hs : StoreHeadsIn s) (h : eval cfg fuel body π' x l s = (.ok l1, s1)) :
+    ∃ t1, eval cfg fuel body [] x l (Scope.bind s.mutable (scopeVariables π' s) s.rngs) = (.ok l1, t1) ∧
+      Reroot π' s1 t1 :=
+  submodule_compositional cfg fuel body π' x l l1 s s1 _ (reroot_scopeVariables π' s hs) h
+
+/-! ## clause: submodules shared between parents stay shared (the deep clone `init`/`apply`/`bind` run on) -/
+
+open Flax.CloneCache in
+/-- **`clone_preserves_sharing`.**  `Module.clone(_deep_clone=True)` visits the module-valued positions of
+all dataclass fields (at any depth, in lists and dicts) with one id-keyed cache.  For any number of fields,
+in any order, with the references anywhere: after the clone two positions hold the same instance exactly
+when they did before, and every instance is a new object (`_id ≥ fresh`), so adoption — which recognises a
+shared instance by the `_id` of its clone — gives one instance one subtree, under the path that adopts it
+first. -/
+theorem clone_preserves_sharing (fields : List (List Nat)) (fresh : Nat) :
+    (deepClone fields fresh).map List.length = fields.map List.length ∧
+    (deepClone fields fresh).flatten.length = fields.flatten.length ∧
+    (∀ a b (ha : a < fields.flatten.length) (hb : b < fields.flatten.length)
+        (ha' : a < (deepClone fields fresh).flatten.length) (hb' : b < (deepClone fields fresh).flatten.length),
+      ((deepClone fields fresh).flatten[a] = (deepClone fields fresh).flatten[b] ↔
+        fields.flatten[a] = fields.flatten[b])) ∧
+    (∀ a (ha' : a < (deepClone fields fresh).flatten.length), fresh ≤ (deepClone fields fresh).flatten[a]) :=
+  ⟨(cloneFields_flatten fields [] fresh).2, deepClone_positions fields fresh⟩
+
+open Flax.CloneCache in
+/-- what goes wrong when the cache is not the one shared object: cloning the first field with a private
+cache (the rest with another) turns one table referenced from two sibling fields into two instances -/
+theorem private_cache_breaks_sharing :
+    deepClone [[7], [7]] 100 = [[100], [100]] ∧
+    ((cloneRefs [7] [] 100).1, (cloneRefs [7] [] (cloneRefs [7] [] 100).2.2).1) = ([100], [101]) := by
+  decide
 
 /-! ## clause: shape-only initialisation (tied to `lazy_init`/`eval_shape`/`jit` by correspondence only) -/
 
@@ -460,6 +535,28 @@ theorem lazy_init_shapes_partial (cfg : Cfg) (fuel : Nat) (p : SProg) (m : LFilt
     (x x' y : Int) (V : Vars) (h : (ModuleTree.init cfg fuel p m rngs x).result = .ok (y, V)) :
     ∃ y' V', (ModuleTree.init cfg fuel p m rngs x').result = .ok (y', V') ∧ Vars.abstract V' = Vars.abstract V :=
   init_shapes cfg fuel p m rngs x x' y V h
+
+/-- **What `lazy_init` needs, as far as flax decides it.**  `partial_eval.lazy_init` marks every
+`ShapeDtypeStruct` argument *unknown*, partially evaluates `init`, and raises `LazyInitError` unless every
+returned variable is *known*, i.e. computed without the unknown arguments; the known values are returned
+as they are.  For a program in which nothing that is stored depends on the call argument (`argFree`:
+constant variable initialisers / `put` / `sow` / `perturb` values — parameters always are), the variables
+`init` returns are literally the same for every argument: the returned tree is a function of the program,
+the filter and the RNG streams alone, which is exactly the condition under which `lazy_init` returns and
+what it then returns.  (That JAX's partial evaluator classifies such outputs as known is JAX; checked on the
+implementation: `lazy_init` returns concrete `init`'s values on these programs.) -/
+theorem lazy_init_values (cfg : Cfg) (hcap : cfg.capture = false) (fuel : Nat) (p : SProg) (hp : argFree p = true)
+    (m : LFilter) (rngs : List String) (x x' y : Int) (V : Vars)
+    (h : (ModuleTree.init cfg fuel p m rngs x).result = .ok (y, V)) :
+    ∃ y', (ModuleTree.init cfg fuel p m rngs x').result = .ok (y', V) :=
+  Flax.ArgFree.init_argfree cfg hcap fuel p hp m rngs x x' y V h
+
+/-- `argFree` is needed: a variable initialised from the argument differs between arguments -/
+theorem arg_free_needed :
+    argFree (.var "stats" "v" [] .arg) = false ∧
+    (ModuleTree.init {} 5 (.var "stats" "v" [] .arg) .tt [] 1).result.toOption.map (·.2.vars)
+      ≠ (ModuleTree.init {} 5 (.var "stats" "v" [] .arg) .tt [] 2).result.toOption.map (·.2.vars) := by
+  decide +kernel
 
 /-! ## non-vacuity -/
 
@@ -479,6 +576,8 @@ def demoV : Vars :=
              (["stats", "A_0", "m"], .tensor [2] [2, 2]), (["params", "A_1", "inner", "b"], .tensor [] [4])] }
 
 example : declOnly demo = true := by decide
+
+example : argFree demo = true := by decide
 
 example : (ModuleTree.init {} 50 demo initDefault ["params"] 1).result = .ok (115, demoV) := by decide +kernel
 
@@ -520,6 +619,18 @@ example : (ModuleTree.init {} 50 statefulDemo .tt ["params"] 3).result = .ok (4,
 example : ((ModuleTree.apply {} 50 statefulDemo .tt statefulV [] 3).final.vars.map (·.1)) =
     [["stats", "A_0", "cnt"], ["inter", "A_0", "h"]] := by decide +kernel
 
+/-- `bound_submodule_variables` instance: unbinding child `A_0` of `demo` bound to `demoV` -/
+example : ((Mod.bind { body := demo } demoV []).child ⟨"A_0", .skip⟩).unbind.map (·.2) =
+    some ⟨["params", "stats"], [(["params", "k"], .tensor [3] [1, 1, 1]), (["stats", "m"], .tensor [2] [2, 2])]⟩ := by
+  decide +kernel
+
+/-- hypothesis of `unbind_then_apply`: stores bound from a dict-of-dicts have every leaf in a collection -/
+example : Flax.PathSim.StoreHeadsIn (Scope.bind .ff demoV []) :=
+  Flax.PathSim.storeHeadsIn_bind .ff demoV (by
+    intro kv hkv c r hc
+    simp only [demoV, List.mem_cons, List.not_mem_nil, or_false] at hkv
+    rcases hkv with rfl | rfl | rfl | rfl <;> (simp only [List.cons.injEq] at hc; simp [demoV, ← hc.1])) []
+
 /-- hypotheses of `name_clash_raises`: two children named `foo` with something in between -/
 example : (eval {} 10 (.seq (.child "A" (some "foo") .skip) (.seq (.bind (.const 1)) (.child "B" (some "foo") .skip)))
     [] 0 {} (Scope.bind .tt Vars.empty ["params"])).1 = .error .nameInUse := by decide +kernel
@@ -542,7 +653,7 @@ example : scopeParam ["A_0"] "k" [4] 1 [] (Scope.bind .tt demoV ["params"])
 /-- `submodule_compositional` instance: child `A_0` applied on its own subtree returns what it
 returns inside the parent (second call, argument 13 → 1·3 + 13·4 = 55) -/
 example : ((eval {} 20 (.seq (.param "k" [.lit 3] 1) (.seq (.var "stats" "m" [2] (.const 2)) (.ret (.add (.loc 0) (.mul .arg (.loc 1))))))
-      [] 13 {} (Scope.bind .ff (Flax.PathSim.restrict ["A_0"] demoV) [])).1.toOption.map (·.out)) = some 55 ∧
+      [] 13 {} (Scope.bind .ff (restrict ["A_0"] demoV) [])).1.toOption.map (·.out)) = some 55 ∧
     ((eval {} 20 (.seq (.param "k" [.lit 3] 1) (.seq (.var "stats" "m" [2] (.const 2)) (.ret (.add (.loc 0) (.mul .arg (.loc 1))))))
       ["A_0"] 13 {} (Scope.bind .ff demoV [])).1.toOption.map (·.out)) = some 55 := by decide +kernel
 
